@@ -54,7 +54,9 @@ func namesContain(typ zed.Type, term string) bool {
 // scanner's expr.FieldNameFinder (top-level record type only) cannot see.
 func MatchesOnlyNestedFieldName(v zed.Value, term string) bool {
 	term = strings.ToLower(term)
-	if term == "" || namesContain(v.Type(), term) {
+	// (for a top-level value that is not a record the finder answers "maybe",
+	// so the scanner cannot lose it)
+	if term == "" || zed.TypeRecordOf(v.Type()) == nil || namesContain(v.Type(), term) {
 		return false
 	}
 	str, nested := false, false
